@@ -44,7 +44,8 @@ def gen_base(rng, small=False):
     return {"B": B, "s": s, "cols": cols, "heuristic": rng.choice(["MI-numba-randomized", "max-value-coverage", "MI-numba"]),
             "target_only": rng.choice(["True", "False", "False"]), "seed": rng.randint(0, 10 ** 6), "segments": c08.rle(lines),
             "entry": "task", "interaction_order": io, "cap": cap, "noise": rng.choice(["False", "False", "True"]),
-            "trailing_newline": True, "crlf": False}
+            "trailing_newline": True, "crlf": False,
+            "extra_args": rng.choice([[], [], ["--mi_stratified_sampling_ratio", rng.choice(["0.5", "0.8", "0.3"])]])}
 
 
 ORDERED = [(1, "reverse"), (2, "random"), (4, "pathos-like"), (8, "last-worker-first"), (16, "random"), (3, "random"),
@@ -65,7 +66,8 @@ def cli_configs(tier):
     a = {"B": 600, "s": 1, "cols": ["id", "f1", "f2", "f3", "label"], "heuristic": "MI-numba-randomized", "target_only": "False",
          "seed": 11, "segments": [[700, 5, 0], [1, 4, 0], [640, 5, 0]], "interaction_order": 2, "cap": 7, "noise": "False"}
     b = {"B": 1100, "s": 2, "cols": ["id", "f1", "f2", "label"], "heuristic": "MI-numba-randomized", "target_only": "True",
-         "seed": 12, "segments": [[4500, 4, 0]], "interaction_order": 1, "cap": 2 ** 15, "noise": "True"}
+         "seed": 12, "segments": [[4500, 4, 0]], "interaction_order": 1, "cap": 2 ** 15, "noise": "True",
+         "extra_args": ["--mi_stratified_sampling_ratio", "0.5"]}       # the stratified sub-sampler is on the path
     cfgs = [a, b]
     if tier == "thorough":
         cfgs.append({"B": 500, "s": 1, "cols": ["id", "f1", "f2", "f3", "f4", "label"], "heuristic": "max-value-coverage",
@@ -197,7 +199,7 @@ def check(run, replay):
             hist["batches"][str(nb)] = hist["batches"].get(str(nb), 0) + 1
             ntasks = max([len(b.get("triplets") or []) // 2 for b in r.get("batches", [])] or [0])
             hist["tasks_per_batch_max"] = max(hist["tasks_per_batch_max"], ntasks)
-            canon = {kk: c[kk] for kk in ("B", "s", "cols", "segments", "heuristic", "target_only", "interaction_order", "cap", "noise", "pool")}
+            canon = {kk: c.get(kk) for kk in ("B", "s", "cols", "segments", "heuristic", "target_only", "interaction_order", "cap", "noise", "extra_args", "pool")}
             run.count_case(canon, nb >= 2 and ntasks >= 6)
             rcase = {"kind": "pool", "base": {kk: vv for kk, vv in c.items() if kk != "pool"}, "pool": spec}
             if not r.get("ok"):
